@@ -45,6 +45,7 @@ type Node struct {
 	Module    string   `json:"module,omitempty"`    // defining module when not the main one ("g")
 	Bits      []string `json:"bits,omitempty"`
 	Rich      bool     `json:"rich,omitempty"`      // module: emit the companion module g (identities, groupings)
+	Actions   bool     `json:"actions,omitempty"`   // module: rpcs zzact (input aa, ab; output ob) and zznoin (no input; output ob), served by Go methods of the accessor-fixture store
 	RpcMirror bool     `json:"rpcmirror,omitempty"` // module: the same definitions once more as input of rpc zzin
 	Children  []*Node  `json:"children,omitempty"`
 	// Group: this container is written as "uses <Group.ID>" of a grouping that a
@@ -390,6 +391,12 @@ func (n *Node) yang(b *strings.Builder, d int) {
 	}
 	for _, c := range n.Children {
 		c.yang(b, d+1)
+	}
+	if n.Kind == Module && n.Actions {
+		ind(b, d+1)
+		b.WriteString("rpc zzact { input { leaf aa { type string; } leaf ab { type int32; } } output { leaf ob { type string; } leaf oc { type int32; } } }\n")
+		ind(b, d+1)
+		b.WriteString("rpc zznoin { output { leaf ob { type string; } } }\n")
 	}
 	if n.Kind == Module && n.RpcMirror {
 		// the same data definitions once more as the input of an rpc
